@@ -174,6 +174,28 @@ func c14BodySize(r *vu.Rng, small bool) int {
 	return c14Pick(r, c14BodySizes)
 }
 
+func c14MeanChunk(rd []int) int {
+	if len(rd) == 0 {
+		return 0
+	}
+	t := 0
+	for _, x := range rd {
+		t += x
+	}
+	return t/len(rd) + 1
+}
+
+// c14Bound shrinks a body size so that it is sent/consumed in at most ~300 pieces; a zero
+// piece size means "no limit from this source".
+func c14Bound(size int, pieces ...int) int {
+	for _, p := range pieces {
+		if p > 0 && size > 300*p {
+			size = 300 * p
+		}
+	}
+	return size
+}
+
 func c14ChunkSizes(r *vu.Rng) []int {
 	switch r.Intn(5) {
 	case 0:
@@ -255,7 +277,8 @@ func c14Gen(r *vu.Rng, _ int) []string {
 		if r.Chance(1, 3) {
 			rq.host = c14Pick(r, []string{"other.example", "Other.Example:8080", "h"})
 		}
-		size := c14BodySize(r, smallUp)
+		// keep the number of DATA / WINDOW_UPDATE frames per message in the hundreds
+		size := c14Bound(c14BodySize(r, smallUp), c14MeanChunk(rq.rd), cfg.sws, 0)
 		switch r.Intn(4) {
 		case 0: // no body at all
 			rq.nilBody, size = true, 0
@@ -267,9 +290,6 @@ func c14Gen(r *vu.Rng, _ int) []string {
 		}
 		if size > 0 {
 			rq.body = c14Pat(size, r.Intn(251))
-		}
-		if size > 1000 && smallUp && len(rq.rd) == 0 {
-			rq.rd = []int{100}
 		}
 		if !rq.nilBody {
 			rq.trl = c14GenTrailers(r, true)
@@ -295,7 +315,11 @@ func c14Gen(r *vu.Rng, _ int) []string {
 		if smallDown && rq.crd < 7 {
 			rq.crd = 512
 		}
+		if len(rq.body) > 300*rs.rdsz {
+			rs.rdsz = 4096
+		}
 		rsize := c14BodySize(r, smallDown)
+		rsize = c14Bound(rsize, 0, cfg.cws, rq.crd)
 		if rsize > 0 {
 			rs.body = c14Pat(rsize, r.Intn(251))
 		}
@@ -312,6 +336,11 @@ func c14Gen(r *vu.Rng, _ int) []string {
 					rs.writes = append(rs.writes, c14Pick(r, []int{0, 1, 10, 100, 1000, 4095, 4096, 4097, 16384, 20000}))
 				}
 			}
+		}
+		if !rs.expl && rs.mode == 0 && len(rs.writes) == 0 && rsize == 0 {
+			// no WriteHeader/Write/Flush at all: the header snapshot would be taken at handler
+			// return and include the trailer values (net/http handler semantics, not modelled)
+			rs.expl = true
 		}
 		// response header fields
 		for k := c14Pick(r, []int{0, 1, 2, 3, 5}); k > 0; k-- {
